@@ -11,7 +11,8 @@ for sid in ids:
         print(sid, "PATCH FAILED"); continue
     try:
         for p in [prop] + EXTRA.get(prop, []):
-            r = subprocess.run(["./check", p, "quick"], cwd=V, capture_output=True, text=True, timeout=3600)
+            r = subprocess.run(["./check", p, "quick"], cwd=V, capture_output=True, text=True, timeout=3600,
+                               env=dict(os.environ, VERIF_EVIDENCE_DIR="/tmp/verif-seed-evidence"))
             viol = [l for l in r.stdout.splitlines() if l.startswith("VIOLATION")]
             res[p] = {"exit": r.returncode, "violations": len(viol), "no_failing_input_found": any("no-failing-input-found" in v for v in viol),
                       "summary": (r.stdout.strip().splitlines() or [""])[-1][:300]}
